@@ -24,6 +24,16 @@ pub struct Call {
 }
 
 pub fn pkscript(i: u8) -> String {
+    if i >= 0x40 {
+        // long scripts in pairs: 0x40/0x41, 0x42/0x43, ... share everything but their last byte
+        const LENS: [usize; 4] = [35, 68, 105, 520];
+        let fam = ((i - 0x40) / 2) as usize % LENS.len();
+        let n = LENS[fam];
+        let mut b: Vec<u8> = (0..n).map(|k| (k as u8).wrapping_mul(7).wrapping_add(fam as u8)).collect();
+        b[0] = 0x51;
+        b[n - 1] = (i - 0x40) % 2;
+        return hex::encode(b);
+    }
     format!("51{:02x}", 0xa0u8.wrapping_add(i))
 }
 
